@@ -470,6 +470,32 @@ func (e *Env) evalCall(n *SCall) Val {
 		}
 		got := h.load(e.cur, v, p.Elem())
 		return boolVal(e.vc().eqVal(got, e.vc().zeroVal(p.Elem())))
+	case "zeroedexcept":
+		v := arg(0)
+		p, ok := under(v.T).(*types.Pointer)
+		if !ok {
+			sfail("zeroedexcept: not a pointer")
+		}
+		if v.P == nil {
+			v.P = &Ptr{Kind: ptrObj, Root: p.Elem()}
+		}
+		skip := map[string]bool{}
+		for i := 1; i < len(n.Args); i++ {
+			skip[e.strArg(n, i)] = true
+		}
+		got := h.load(e.cur, v, p.Elem())
+		var cs []string
+		eachLeaf(got, "", func(path string, lv Val) {
+			top := path
+			if k := strings.IndexAny(path, ".#"); k >= 0 {
+				top = path[:k]
+			}
+			if skip[top] {
+				return
+			}
+			cs = append(cs, Eq(lv.S, e.vc().zeroScalar(lv.T)))
+		})
+		return boolVal(And(cs...))
 	case "isnil":
 		v := arg(0)
 		return boolVal(e.x.isNil(v))
